@@ -277,7 +277,8 @@ impl<const K: usize> AffTree<K> {
                 let mut skipped_children = 0;
                 let mut label_created = None;
 
-                for edg in lhs.tree.children(parent0_idx) {
+                let n_children0 = lhs.tree.num_children(parent0_idx);
+                for (pos, edg) in lhs.tree.children(parent0_idx).enumerate() {
                     let child0_idx = edg.target_idx;
                     let child0 = edg.target_value;
                     let label = edg.label;
@@ -299,8 +300,11 @@ impl<const K: usize> AffTree<K> {
                         .add_child_node(parent1_idx, label, AffContent::new(child1_aff))
                         .unwrap();
 
-                    // Test feasibility of newly created edge, remove if infeasible
-                    if C::explore(rhs, parent1_idx, child1_idx) {
+                    // Test feasibility of newly created edge, remove if infeasible.
+                    // The last child is kept when all others were removed: a node without
+                    // children would be a terminal that holds a predicate.
+                    let keep_last = created_children == 0 && pos + 1 == n_children0;
+                    if keep_last || C::explore(rhs, parent1_idx, child1_idx) {
                         stack.push((child0_idx, child1_idx));
                         created_children += 1;
                         n_nodes += 1;
@@ -311,7 +315,6 @@ impl<const K: usize> AffTree<K> {
                     }
                 }
 
-                // In the case of no children remove_child already cleans up the tree
                 if created_children == 1 && created_children + skipped_children == K {
                     debug!("Forwarding node");
                     // Move affine function to parent node and clean up tree
